@@ -97,14 +97,14 @@ PROPS["C05"] = {
 }
 PROPS["C06"] = {
     "level": "proof", "theorems": _GEN["C06"], "theorem_kinds": {},
-    "rule": "seeded 2..4 replica histories (general / text only / map only / array only / editor sessions in which every replica keeps typing at its cursor) with out-of-order deliveries (stashes, gaps); every ordered pair (A,B) of final replica states (B re-created by replaying exactly what it applied) x {encode_diff, encode_state_as_update} x {v1,v2} x {B's own vector, a stale vector recorded earlier}: B dominates A afterwards (state vector, integrated ids, deleted ids), the state vector never decreases, re-applying changes nothing, a diff against the own vector changes nothing, exchanging until nothing changes makes both equal. Non-trivial = a pair where one side has a gap or a stash",
-    "trusted_base": [_MODEL_NOTE, "diff / state-vector theorems are at operation-set level (coq/Crdt/SyncProofs.v); slice encoding of partially known blocks is covered by the correspondence only"],
-    "modelled_not_verified": ["Store::write_blocks_from offsets / ItemSlice::encode", "v2 run-length state"], "assumptions": [],
+    "rule": "seeded 2..4 replica histories (general / text only / map only / array only / editor sessions in which every replica keeps typing at its cursor) with out-of-order deliveries (stashes, gaps); every ordered pair (A,B) of final replica states (B re-created by replaying exactly what it applied) x {encode_diff, encode_state_as_update} x {v1,v2} x {B's own vector, a stale vector recorded earlier}: B dominates A afterwards (state vector, integrated ids, deleted ids), the state vector never decreases, re-applying changes nothing, a diff against the own vector changes nothing, exchanging until nothing changes makes both equal; every encode_diff_v1 of every exchange is compared (through the model's decoder) with the extracted transcription of Store::write_blocks_from / DeleteSet::from_store / encode_diff fed the sender's block store (coq/Crdt/WriteBlocks.v, runner WBF diff). Non-trivial = a pair where one side has a gap or a stash",
+    "trusted_base": [_MODEL_NOTE, "diff / state-vector theorems at operation-set level (coq/Crdt/SyncProofs.v) and for the transcribed encoder (coq/Crdt/WriteBlocksProofs.v: the units a diff carries are exactly those the remote vector lacks, the delete set is exactly the store's tombstones, the receiver is complete afterwards)"],
+    "modelled_not_verified": ["ItemSlice::encode byte layout of one block (tied by the codec correspondence, C09)", "v2 run-length state"], "assumptions": [],
 }
 PROPS["C07"] = {
     "level": "proof", "theorems": _GEN["C07"], "theorem_kinds": {},
-    "rule": "a leader (gc on in 1/3 of the cases) with v1+v2 update observers performs 6..16 transactions: local edits over all types, remote updates of two other replicas (any order, duplicates, partially known), undo / redo, empty transactions; two passive followers (cleanup off) fed only by the v1 / v2 stream are compared with the leader (public content) after EVERY transaction; a model follower fed by the v1 stream through the Coq decoder is compared at item level; the number of events per transaction is checked against whether the integrated or deleted id set changed. Non-trivial = the leader applied at least one remote update",
-    "trusted_base": [_MODEL_NOTE], "modelled_not_verified": ["TransactionMut::encode_update byte layout", "commit ordering (cleanup, gc, squash before emit)"], "assumptions": [],
+    "rule": "a leader (gc on in 1/3 of the cases) with v1+v2 update observers performs 6..16 transactions: local edits over all types, remote updates of two other replicas (any order, duplicates, partially known), undo / redo, empty transactions; two passive followers (cleanup off) fed only by the v1 / v2 stream are compared with the leader (public content) after EVERY transaction; a model follower fed by the v1 stream through the Coq decoder is compared at item level; the number of events per transaction is checked against whether the integrated or deleted id set changed; every v1 event is compared with the extracted transcription of TransactionMut::encode_update fed the store, the insert set and the delete set of the transaction (coq/Crdt/WriteBlocks.v, runner WBF txn), and no event may write a unit again that an earlier transaction integrated. Non-trivial = the leader applied at least one remote update",
+    "trusted_base": [_MODEL_NOTE, "coq/Crdt/WriteBlocksProofs.v: wbf_txn_update_exact (an event holds exactly the units of the transaction's insert set and its delete set)"], "modelled_not_verified": ["byte layout of one block inside the event (C09 tie)", "commit ordering (cleanup, gc, squash before emit)", "when the event fires (implementation-side oracle only)"], "assumptions": [],
 }
 PROPS["C08"] = {
     "level": "proof", "theorems": _GEN["C08"], "theorem_kinds": {},
